@@ -23,6 +23,11 @@ def _eval_all(P, wd, cases, tag):
         if "offgrid" in r:
             offgrid.append(i)
             continue
+        if hasattr(P, "emit_multi"):
+            for t in P.emit_multi(c, r):
+                terms.append(t)
+                idx.append(i)
+            continue
         t = P.emit(c, r)
         if t is None:
             continue
@@ -30,8 +35,8 @@ def _eval_all(P, wd, cases, tag):
         idx.append(i)
     funs = [P.CORR, P.ORACLE, P.HYP]
     fails, broken = core.coq_eval_cases(wd, P.MODULE, P.CASE_TYPE, terms, funs, tag=tag)
-    corr_fail = sorted(idx[k] for k in fails[P.CORR])
-    oracle_fail = sorted(idx[k] for k in fails[P.ORACLE])
+    corr_fail = sorted(set(idx[k] for k in fails[P.CORR]))
+    oracle_fail = sorted(set(idx[k] for k in fails[P.ORACLE]))
     outside_hyp = set(idx[k] for k in fails[P.HYP])
     return {"results": results, "corr_fail": corr_fail, "oracle_fail": oracle_fail,
             "outside_hyp": outside_hyp, "py_fail": py_fail, "offgrid": offgrid,
@@ -85,11 +90,12 @@ def _single_fails(P, wd, case, which, tag="shr"):
         return bool(P.py_checks(case, r))
     if "offgrid" in r:
         return False
-    t = P.emit(case, r)
-    if t is None:
+    ts = P.emit_multi(case, r) if hasattr(P, "emit_multi") else [P.emit(case, r)]
+    ts = [t for t in ts if t is not None]
+    if not ts:
         return False
     fun = P.ORACLE if which == "oracle" else P.CORR
-    fails, broken = core.coq_eval_cases(wd, P.MODULE, P.CASE_TYPE, [t], [fun], tag=tag)
+    fails, broken = core.coq_eval_cases(wd, P.MODULE, P.CASE_TYPE, ts, [fun], tag=tag)
     return bool(fails[fun])
 
 
